@@ -233,4 +233,7 @@ theorem createProg_noop (sch inj) (c : Nat) (id? : Option Nat) (missing : Bool) 
             simp at h
       · simp at h; obtain ⟨rfl, _⟩ := h; rfl
     · simp at h; obtain ⟨rfl, _⟩ := h; rfl
+theorem list_set_getD_self {α} (l : List α) (i : Nat) (d : α) (h : i < l.length) : l.set i (l.getD i d) = l := by
+  simp [List.getD, List.getElem?_eq_getElem h]
+
 end SqlObjVerif.Fail
